@@ -99,6 +99,7 @@ var userDirectives = []string{
 	"// gomacro:QUERY ResetUsers UPDATE User SET Role = #[Role.Member] WHERE Role = $old$",
 	"// gomacro:SQL ADD UNIQUE(Name)\n// gomacro:SQL ADD CHECK(Role = #[Role.Admin] OR Role = #[Role.Member])",
 	"// gomacro:SQL ADD UNIQUE(Role)\n// gomacro:QUERY CleanUsers DELETE FROM User WHERE Role = $r$",
+	"// gomacro:SQL ADD UNIQUE(Name)\n// gomacro:SQL ADD UNIQUE(Mood)",
 }
 
 var linkDirectives = []string{
@@ -111,6 +112,8 @@ var linkDirectives = []string{
 	"// gomacro:SQL ADD FOREIGN KEY (IdTeam, IdUser) REFERENCES Team ON DELETE CASCADE",
 	"// gomacro:SQL ADD CHECK(IdUser <> IdTeam OR Membership IS NULL)",
 	"// gomacro:QUERY MoveMembers UPDATE Membership SET IdTeam = $to$ WHERE IdTeam = $from$",
+	// two REFERENCES clauses in one statement, the second one naming a table declared elsewhere
+	"// gomacro:SQL ADD FOREIGN KEY (IdTeam) REFERENCES Team, ADD FOREIGN KEY (IdUser) REFERENCES PersonArchive",
 }
 
 // Tables is the F-tables family.
@@ -142,7 +145,7 @@ func TablesWith(c explore.Chooser, defaultCol string) *prog.Program {
 	}
 	colTag := s.Pick("col.tag", "", "`json:\"slot\"`", "`json:\"-\"`", "`gomacro:\"ignore\"`", "`json:\"s,omitempty\"`")
 	colName := s.Pick("col.name", "Slot", "slot", "SlotValue", "X")
-	fkForm := s.Pick("fk.form", "id-type-prefix", "id-type-suffix", "tag-int64", "tag-nullable", "nullable-wrapper-no-tag", "self-reference", "unknown-target")
+	fkForm := s.Pick("fk.form", "id-type-prefix", "id-type-suffix", "tag-int64", "tag-nullable", "nullable-wrapper-no-tag", "self-reference", "unknown-target", "self-reference-tagged")
 	onDelete := s.Pick("fk.on-delete", "", "CASCADE", "SET NULL")
 	guard := s.Pick("guard", "none", "literal", "enum-placeholder", "unexported-literal", "string-enum-placeholder", "literal-before-id")
 	userDir := s.Pick("user.directive", userDirectives...)
@@ -150,6 +153,7 @@ func TablesWith(c explore.Chooser, defaultCol string) *prog.Program {
 	style := s.Pick("decl.style", "separate", "grouped-spec-docs", "grouped-group-doc", "plain-comment-between", "directive-on-neighbour", "comment-after-directive")
 	tableName := s.Pick("name.table", "User", "UserAccount", "U", "HTTPLog", "Log2Entry", "Address", "userData")
 	extraFK := s.Pick("user.extra-fk", "none", "team", "team-unique")
+	teamSlot := s.Pick("team.slot", "none", "same-column")
 
 	var b, ext strings.Builder
 	b.WriteString("type IdUser int64\n\ntype UserId int64\n\ntype IdTeam int64\n\ntype TeamId int64\n\ntype IdGhost int64\n\n")
@@ -196,10 +200,17 @@ func TablesWith(c explore.Chooser, defaultCol string) *prog.Program {
 	if fkForm == "self-reference" {
 		uf = append(uf, "\tParent IdUser")
 	}
+	if fkForm == "self-reference-tagged" {
+		uf = append(uf, "\tParent IdUser `gomacro-sql-foreign:\"User\""+od+"`")
+	}
 	user := "type User struct {\n" + strings.Join(uf, "\n") + "\n}"
 
 	// ---- Team
 	team := "type Team struct {\n\tId    IdTeam\n\tLabel string\n}"
+	if teamSlot == "same-column" {
+		// a second table with a column of the same name and type as User's slot column
+		team = fmt.Sprintf("type Team struct {\n\tId    IdTeam\n\tLabel string\n\t%s %s %s\n}", colName, col.typ, colTag)
+	}
 
 	// ---- Membership (link table)
 	var mf []string
@@ -209,7 +220,7 @@ func TablesWith(c explore.Chooser, defaultCol string) *prog.Program {
 		tagOD = " `" + strings.TrimSpace(od) + "`"
 	}
 	switch fkForm {
-	case "id-type-prefix", "self-reference":
+	case "id-type-prefix", "self-reference", "self-reference-tagged":
 		mf = append(mf, "\tIdTeam IdTeam"+tagOD)
 	case "id-type-suffix":
 		mf = append(mf, "\tIdTeam TeamId"+tagOD)
